@@ -200,15 +200,15 @@ func (c *Conn) readHeaderFrom(r io.Reader) (int, error) {
 		return 0, ErrBadConn
 	}
 
+	sequence := uint8(header[3])
+	if sequence != c.sequence {
+		return 0, fmt.Errorf("invalid sequence, expected %v got %v", c.sequence, sequence)
+	}
+
 	length := int(uint32(header[0]) | uint32(header[1])<<8 | uint32(header[2])<<16)
 	if length == 0 {
 		c.sequence++
 		return 0, nil
-	}
-
-	sequence := uint8(header[3])
-	if sequence != c.sequence {
-		return 0, fmt.Errorf("invalid sequence, expected %v got %v", c.sequence, sequence)
 	}
 
 	c.sequence++
